@@ -689,15 +689,26 @@ func serRunPerm(pl *serPlan, pi int, perm []int, style string, nfiles int) (res 
 		}
 	}()
 	c, nm := pl.c, &pl.nm
-	bld, err := benchseries.NewBuilder(nm.options())
+	opts := nm.options()
+	if style == "filtered" {
+		opts.Filter = "-.unit:noise/op"
+	}
+	bld, err := benchseries.NewBuilder(opts)
 	if err != nil {
 		res.v = fail("harness", "NewBuilder: %v", err)
 		return
 	}
+	mk := func(g []int) *benchfmt.Result {
+		r := nm.result(c, g, pl.vals, pl.spell)
+		if style == "filtered" {
+			r.Values = append([]benchfmt.Value{{Value: 4242, Unit: "noise/op"}}, r.Values...)
+		}
+		return r
+	}
 	// group the records of this order into Results
 	var groups [][]int
 	for _, i := range perm {
-		if style == "merged" && len(groups) > 0 {
+		if (style == "merged" || style == "filtered") && len(groups) > 0 {
 			g := groups[len(groups)-1]
 			a, b := c.Recs[g[0]], c.Recs[i]
 			same := a.Table == b.Table && a.Bench == b.Bench && a.Exp == b.Exp && a.Series == b.Series && a.Role == b.Role && pl.spell[g[0]] == pl.spell[i]
@@ -749,7 +760,7 @@ func serRunPerm(pl *serPlan, pi int, perm []int, style string, nfiles int) (res 
 		}
 	} else {
 		for _, g := range groups {
-			bld.Add(nm.result(c, g, pl.vals, pl.spell))
+			bld.Add(mk(g))
 		}
 	}
 	for k := 0; k < serCalls; k++ {
@@ -837,6 +848,10 @@ func serReplaySeries(c *serCase, caseNo int, dir string) Verdict {
 			styles[pi] = "merged"
 		case pi%24 == 2 || pi == len(perms)-1:
 			styles[pi] = "files"
+		case pi%6 == 3 || pi == 0 && len(perms) == 1:
+			// multi-unit results carrying an extra measurement, in first position, of a unit the
+			// builder's filter drops: the series must be those of the unfiltered records
+			styles[pi] = "filtered"
 		}
 		nfiles[pi] = 1 + rnd.Intn(3)
 	}
